@@ -188,6 +188,11 @@ func genHints(r *rand.Rand) (*Hints, []string) {
 	if r.Intn(5) == 0 {
 		h.End = h.Start + int64(r.Intn(3))*86400000 + int64(r.Intn(1000))
 	}
+	if r.Intn(8) == 0 { // window ending in the first half hour of a UTC day: the upper date bounds
+		h.End = (int64(19700+r.Intn(30))*86400 + int64(r.Intn(1800))) * 1000
+		h.Start = h.End - int64(1+r.Intn(7200))*1000
+		class = append(class, "to-after-midnight")
+	}
 	h.Step = []int64{0, 0, 1, 1000, 5000, 7000, 14999, 15000, 30000, 60000, 300000}[r.Intn(11)]
 	h.Range = []int64{0, 0, 1000, 5000, 14999, 15000, 60000, 300000, 3600000}[r.Intn(9)]
 	if strings.HasSuffix(h.Func, "_over_time") || h.Func == "rate" || h.Func == "irate" {
